@@ -305,3 +305,113 @@ func TestHandoffQueueDepth(t *testing.T) {
 			Alive: rapid.SampledFrom([]int{0, 5, 70}).Draw(t, "alive")}
 	}, runFlood)
 }
+
+// ---- replies replayed against a request in flight ------------------------------------------
+//
+// The sequence number of a probe is visible to whoever receives the ping or an indirect-ping request. Any number of
+// copies of a genuine reply (nacks above all: they do not complete the probe) may arrive while the probe is in
+// flight; the node keeps serving its listeners whatever their number.
+
+type ReplayPlan struct {
+	Helpers int
+	Nacks   int // copies of nack{seq of the probe in flight}
+	Acks    int // copies of ack{seq} sent afterwards
+	Wrong   int // acks/nacks with other sequence numbers mixed in
+	AfterMs int // when the flood starts, relative to the ping
+}
+
+func runReplay(pl ReplayPlan) (res vfx.Result) {
+	synctest.Test(theT, func(t *testing.T) { res = runReplayIn(pl) })
+	return
+}
+
+func runReplayIn(pl ReplayPlan) (res vfx.Result) {
+	fail := func(f string, a ...any) vfx.Result { res.Err = fmt.Errorf(f, a...); return res }
+	conf := puppet.NodeConf{Name: "n0", IP: "10.0.0.1", Port: 7946, IndirectChecks: pl.Helpers, ProbeIntervalMs: 1000, ProbeTimeoutMs: 300, GossipIntervalMs: -1, DisableTcpPings: true, SuspicionMult: 30}
+	p, err := puppet.New(1, conf)
+	if err != nil {
+		return fail("create: %v", err)
+	}
+	defer func() { p.Shutdown(); time.Sleep(20 * time.Second) }()
+	vsn := []uint8{1, 5, 2, 0, 0, 0}
+	var parts [][]byte
+	for i := 0; i < pl.Helpers; i++ {
+		h := p.AddPeer(fmt.Sprintf("h%d", i), fmt.Sprintf("10.0.0.%d", 20+i), 7946, vsn)
+		h.Relay = false
+		h.OnLeaf = func(string, wire.Leaf) bool { return false }
+		parts = append(parts, puppet.Claim{Kind: "alive", Node: h.Name, Inc: 1, Addr: h.IPBytes(), Port: 7946, Vsn: vsn}.Leaf())
+	}
+	x := p.AddPeer("x", "10.0.0.50", 7946, vsn)
+	x.AckPings = false
+	parts = append(parts, puppet.Claim{Kind: "alive", Node: "x", Inc: 1, Addr: x.IPBytes(), Port: 7946, Vsn: vsn}.Leaf())
+	att := "10.0.0.66:7946"
+	flooded := make(chan uint32, 1)
+	x.OnLeaf = func(from string, l wire.Leaf) bool {
+		pg, ok := l.V.(*wire.Ping)
+		if !ok || pg.Node != "x" {
+			return true
+		}
+		select {
+		case flooded <- pg.SeqNo:
+		default:
+			return true
+		}
+		seq := pg.SeqNo
+		time.AfterFunc(time.Duration(pl.AfterMs)*time.Millisecond, func() {
+			for i := 0; i < pl.Nacks; i++ {
+				p.Net.SendFrom(att, p.Addr(), p.Outer(wire.Encode(wire.NackRespMsg, &wire.Nack{SeqNo: seq})))
+				if i < pl.Wrong {
+					p.Net.SendFrom(att, p.Addr(), p.Outer(wire.Encode(wire.NackRespMsg, &wire.Nack{SeqNo: seq + 77})))
+					p.Net.SendFrom(att, p.Addr(), p.Outer(wire.Encode(wire.AckRespMsg, &wire.Ack{SeqNo: seq + 78})))
+				}
+			}
+			for i := 0; i < pl.Acks; i++ {
+				p.Net.SendFrom(att, p.Addr(), p.Outer(wire.Encode(wire.AckRespMsg, &wire.Ack{SeqNo: seq})))
+			}
+		})
+		return true
+	}
+	p.Inject("10.0.0.98:7946", parts, puppet.Carrier{Kind: "compound"})
+	// wait for the first probe of x and let the flood play out
+	for i := 0; i < 100 && len(flooded) == 0; i++ {
+		time.Sleep(100 * time.Millisecond)
+	}
+	if len(flooded) == 0 {
+		return fail("the node never probed x")
+	}
+	time.Sleep(2500 * time.Millisecond)
+	p.Settle()
+	// the packet listener still serves: a fresh ping is answered
+	tap := p.TapLen()
+	p.Net.SendFrom(att, p.Addr(), p.Outer(wire.Encode(wire.PingMsg, &wire.Ping{SeqNo: 424242, Node: "n0", SourceAddr: []byte{10, 0, 0, 66}, SourcePort: 7946, SourceNode: "att"})))
+	time.Sleep(50 * time.Millisecond)
+	p.Settle()
+	out, _, err := p.OutboundSince(tap)
+	if err != nil {
+		return fail("%v", err)
+	}
+	acked := false
+	for _, o := range out {
+		if a, ok := o.Leaf.V.(*wire.Ack); ok && a.SeqNo == 424242 {
+			acked = true
+		}
+	}
+	if !acked {
+		return fail("after %d copies of the nack (and %d of the ack) for the probe in flight the node no longer answers a ping: its packet listener is stuck", pl.Nacks, pl.Acks)
+	}
+	if _, err := p.Dump(); err != nil {
+		return fail("after the replay flood the node no longer serves a state exchange: %v", err)
+	}
+	res.NonTrivial = pl.Nacks > pl.Helpers+1 || pl.Acks > pl.Helpers+1
+	res.Labels = []string{fmt.Sprintf("nacks>%d", pl.Helpers+1)}
+	return res
+}
+
+func TestReplayFlood(t *testing.T) {
+	theT = t
+	vfx.Check(t, func(t *rapid.T) ReplayPlan {
+		return ReplayPlan{Helpers: rapid.IntRange(0, 3).Draw(t, "helpers"), Nacks: rapid.SampledFrom([]int{0, 1, 2, 4, 5, 6, 20, 200}).Draw(t, "nacks"),
+			Acks: rapid.SampledFrom([]int{0, 1, 2, 5, 50}).Draw(t, "acks"), Wrong: rapid.SampledFrom([]int{0, 3}).Draw(t, "wrong"),
+			AfterMs: rapid.SampledFrom([]int{1, 100, 350, 900}).Draw(t, "after")}
+	}, runReplay)
+}
